@@ -90,6 +90,21 @@ def unspy(saved):
     IkeSa.process_message, IkeSa.process_expire = saved
 
 
+def status_clauses(table):
+    """what the status connection of main_loop does with the table (json.dumps of every to_dict()): the reply exists and lists exactly the table"""
+    import json as _json
+    try:
+        rep = _json.loads(_json.dumps([x.to_dict() for x in table]))
+    except Exception as ex:     # noqa
+        return [f'the status query cannot be answered for this table: {type(ex).__name__}: {ex}']
+    try:
+        same = [x['my_spi'] for x in rep] == [e.my_spi.hex() for e in table] and [x['state'] for x in rep] == [e.state.name for e in table] and \
+            [len(x['child_sas']) for x in rep] == [len(e.child_sas) for e in table] and [x['is_initiator'] for x in rep] == [e.is_initiator for e in table]
+    except Exception as ex:     # noqa
+        return [f'the status report lacks a field: {type(ex).__name__}: {ex}']
+    return [] if same else ['the status report differs from the table (SPIs, role, state, CHILD_SAs)']
+
+
 def table_invariant(c, pre_kernel_keys=None):
     """-> list of violated clauses (concrete: the table holds objects and enum states)"""
     S = MODS['ikesa'].IkeSa.State
@@ -114,7 +129,7 @@ def table_invariant(c, pre_kernel_keys=None):
     have = set(c.E.kernel.sad)
     if have != want:
         bad.append(f'kernel SAD differs from the CHILD_SAs of the listed IKE_SAs (+{len(have - want)} / -{len(want - have)})')
-    return bad
+    return bad + status_clauses(t)
 
 
 def h_route(layout, sender_idx, kind):
@@ -528,7 +543,7 @@ def table_invariant_ctl(ctl):
         bad.append('an IKE_SA is listed twice')
     if any(e.state == S.DELETED for e in ctl.ike_sas):
         bad.append('an IKE_SA in state DELETED is still listed')
-    return bad
+    return bad + status_clauses(ctl.ike_sas)
 
 
 def build_instances(tier):
